@@ -436,7 +436,8 @@ Proof.
   intros Hp. unfold bfinish.
   assert (E : bs_pos s <? bn inp = false) by lia.
   rewrite E, andb_false_r. cbn [andb]. cbv iota. rewrite Hp, bskip_end.
-  rewrite <- (rev_length (bs_out s)), firstn_all. reflexivity.
+  rewrite <- (rev_length (bs_out s)), firstn_all.
+  rewrite Z.sub_diag. cbn [Z.to_nat repeat app]. rewrite firstn_skipn. reflexivity.
 Qed.
 
 Lemma bloop_oto t inp cap : oto t -> len inp <= cap ->
